@@ -28,7 +28,8 @@ for p in props:
     checks.append({
         'property_id': pid,
         'quick_cmd': 'timeout 600 ./check %s --tier quick' % pid,
-        'thorough_cmd': 'timeout 3600 ./check %s --tier thorough' % pid,
+        'thorough_cmd': ('timeout 3600 sh -c "PYTHONHASHSEED=0 tools/crosscheck_mp.py >/dev/null || { echo HARNESS-ERROR fake multiprocessing disagrees with real multiprocessing; exit 2; }; ./check %s --tier thorough"' % pid)
+                        if pid in ('C08', 'C13') else 'timeout 3600 ./check %s --tier thorough' % pid,
         'evidence_file': '/verif/evidence/%s.json' % pid,
         'replay_cmd_template': './check replay {path}',
         'engine': m['engine'],
